@@ -47,6 +47,11 @@ def powNat {K : Type} [Scalar K] (z : K) : Nat → K
   | 0 => Scalar.one
   | n + 1 => powNat z n *. z
 
+/-- `exp(-1j·w_k)` on the grid `freqz(worN=n, whole, include_nyquist=incl)` returns: with
+`include_nyquist` and a half circle the `n` points end exactly at π (step π/(n−1)) -/
+def gridPhasor {K : Type} [Scalar K] (incl whole : Bool) (k n : Nat) : K :=
+  if incl && !whole then Scalar.phasor false k (n - 1) else Scalar.phasor whole k n
+
 /-- `Σ_j c_j z^j` (what `scipy.signal.freqz` evaluates at `z = exp(-1j w)`) -/
 def polyEval {K : Type} [Scalar K] (c : List K) (z : K) : K :=
   sumRange c.length fun j => c.getD j Scalar.zero *. powNat z j
@@ -78,6 +83,8 @@ def phasor (whole : Bool) (k n : Nat) : CF :=
 /-- the grid value `w_k` itself, as `numpy.linspace(0, last, n, endpoint=False)` computes it -/
 def gridW (whole : Bool) (k n : Nat) : Float :=
   k.toFloat * ((if whole then 2.0 * pi else pi) / n.toFloat)
+def gridWI (incl whole : Bool) (k n : Nat) : Float :=
+  if incl && !whole then gridW false k (n - 1) else gridW whole k n
 end CF
 
 instance : Scalar CF where
